@@ -69,7 +69,6 @@ def compile_modified_block(
     # Function inputs
     captured = [v for v, _ in modified_block.captured.values()]
     captured = non_copyable_front_others_back(captured)
-    args = [dfg[v] for v in captured]
 
     # Apply modifiers
     if modified_block.has_dagger():
@@ -145,7 +144,9 @@ def compile_modified_block(
             )
             ctrl_args.append(control_array)
 
-    # Call
+    # Call. The captured values are read only now: evaluating a power or control
+    # argument may have borrowed (and rebound) one of them.
+    args = [dfg[v] for v in captured]
     call = dfg.builder.add_op(
         ops.CallIndirect(),
         call,
